@@ -253,6 +253,14 @@ def run_case(case, ctx):
                 for pr in (1, 2, 7):
                     b = _quiet(ttb.cp_apr, Tc, R, init=M0.copy(), printitn=pr, **kw)
                     _cmp(ctx, op, denote(a[0]), denote(b[0]), f"printitn 0 vs {pr}", printitn=pr)
+                # ... also when the run ends on its time budget (spent after the first sweep) rather than on the iteration limit
+                kwt = dict(kw, stoptime=-1.0, maxiters=max(6, kw["maxiters"]))
+                a = _quiet(ttb.cp_apr, Tc, R, init=M0.copy(), printitn=0, **kwt)
+                one = _quiet(ttb.cp_apr, Tc, R, init=M0.copy(), printitn=0, **dict(kw, maxiters=1))
+                _cmp(ctx, op, denote(one[0]), denote(a[0]), "time budget spent after one sweep vs iteration limit 1 (printitn 0)", exit="time")
+                for pr in (1, 3):
+                    b = _quiet(ttb.cp_apr, Tc, R, init=M0.copy(), printitn=pr, **kwt)
+                    _cmp(ctx, op, denote(a[0]), denote(b[0]), f"time budget spent: printitn 0 vs {pr}", printitn=pr, exit="time")
             else:
                 a = seeded(ttb.cp_apr, Tc, R, printitn=0, **kw)
                 b = seeded(ttb.cp_apr, Tc, R, printitn=0, **kw)
@@ -328,6 +336,15 @@ def run_case(case, ctx):
             a = seeded(ttb.gcp_opt, T, R, Objectives.GAUSSIAN, mk(), printitn=0)
             b = seeded(ttb.gcp_opt, T, R, Objectives.GAUSSIAN, mk(), printitn=1)
             _cmp(ctx, op, denote(a[0]), denote(b[0]), "printitn 0 vs 1", exact=(sub != "lbfgsb"))
+            if sub == "lbfgsb":
+                # with missing entries (a mask) and a random start: the start is scaled to the norm of the observed data whatever is printed
+                Wm = (rng.random(shape) < 0.75).astype(float)
+                Wm[tuple(int(x) for x in np.argwhere(np.abs(X) == np.max(np.abs(X)))[0])] = 0.0          # a large entry is missing
+                for mform in ("tensor",):
+                    am = seeded(ttb.gcp_opt, T.copy(), R, Objectives.GAUSSIAN, mk(), mask=ttb.tensor(Wm.copy()), printitn=0)
+                    bm = seeded(ttb.gcp_opt, T.copy(), R, Objectives.GAUSSIAN, mk(), mask=ttb.tensor(Wm.copy()), printitn=1)
+                    _cmp(ctx, op, denote(am[1]), denote(bm[1]), "masked data, printitn 0 vs 1: starting guess", exact=True, which="guess", masked=True)
+                    _cmp(ctx, op, denote(am[0]) * Wm, denote(bm[0]) * Wm, "masked data, printitn 0 vs 1: fitted observed entries", masked=True)
         else:
             a = seeded(ttb.gcp_opt, T, R, Objectives.GAUSSIAN, mk(), printitn=0)
             b = seeded(ttb.gcp_opt, T, R, Objectives.GAUSSIAN, mk(), printitn=0)
